@@ -63,22 +63,28 @@ Section Align.
     align_eager (keys_of other) (vals_of other) sorting.
 
   (* the right-hand side handed to torch for one leaf *)
-  Inductive rhs := RLeaf (v : V) | ROperand.   (* ROperand: the scalar / tensor operand itself *)
+  Inductive rhs := RLeaf (v : V) | ROperand    (* ROperand: the scalar / tensor operand itself *)
+               | RUnchanged.                    (* the op was not applied: the value of self comes back as it is *)
   Inductive operand := OpScalar | OpTd (o : items).
 
   (* how the values are combined: fused kernels refuse empty lists and lists of different lengths,
      the python loop `zip`s (silently truncates) *)
-  Inductive family := Foreach | Loop.
+  Inductive family := Foreach | Loop
+                    | ForeachSwallow.   (* clamp_max / clamp_min (+ in-place): `except RuntimeError` without re-raise, so a
+                                           kernel failure leaves the values of self in place and nothing is raised *)
 
   Definition combine_vals (f : family) (l : list V) (r : list V) : res (list (V * rhs)) :=
     match f with
     | Foreach => if Nat.eqb (List.length l) (List.length r) && negb (Nat.eqb (List.length l) 0)
                  then Ok (combine l (map RLeaf r)) else Raised
     | Loop => Ok (combine l (map RLeaf r))
+    | ForeachSwallow => if Nat.eqb (List.length l) (List.length r) && negb (Nat.eqb (List.length l) 0)
+                        then Ok (combine l (map RLeaf r)) else Ok (map (fun v => (v, RUnchanged)) l)
     end.
   Definition combine_scalar (f : family) (l : list V) : res (list (V * rhs)) :=
     match f, l with
     | Foreach, [] => Raised
+    | ForeachSwallow, [] => Ok []
     | _, _ => Ok (map (fun v => (v, ROperand)) l)
     end.
 
@@ -87,7 +93,10 @@ Section Align.
        new_keys, other_val = other._items_list(True, True, sorting_keys=keys, default=default)
        if default is not None: vals = [as_dict.get(key, default) for key in new_keys]; keys = new_keys
        items = dict(zip(keys, f(vals, other_val)));  result = {every entry of items}  (pop for self's leaves + update) *)
-  Definition binary_plan (f : family) (s : items) (other : operand) (d : dflt) : res (list (string * (V * rhs))) :=
+  (* [closed]: the result cannot take a key self does not have — a locked tensordict (the result inherits the lock and
+     `result.update(items)` raises) or a tensorclass (no such field) *)
+  Definition binary_plan (f : family) (closed : bool) (s : items) (other : operand) (d : dflt)
+    : res (list (string * (V * rhs))) :=
     let keys := keys_of s in
     let vals := vals_of s in
     match other with
@@ -107,7 +116,8 @@ Section Align.
             | None => Raised
             | Some (keys', vals') =>
                 match combine_vals f vals' other_val with
-                | Ok c => Ok (dict_of (combine keys' c))
+                | Ok c => if closed && existsb (fun k => negb (mem k keys)) (map fst (combine keys' c)) then Raised
+                          else Ok (dict_of (combine keys' c))
                 | Raised => Raised
                 end
             end
@@ -115,17 +125,17 @@ Section Align.
     end.
 
   (* in-place binary op (add_, ..., pow_):  other_val = other._values_list(True, True, sorting_keys=keys) *)
-  Definition inplace_plan (fixed : bool) (s : items) (other : operand) : res (list (string * (V * rhs))) :=
+  Definition inplace_plan (f : family) (fixed : bool) (s : items) (other : operand) : res (list (string * (V * rhs))) :=
     let keys := keys_of s in
     let vals := vals_of s in
     match other with
-    | OpScalar => match combine_scalar Foreach vals with Ok c => Ok (combine keys c) | Raised => Raised end
+    | OpScalar => match combine_scalar f vals with Ok c => Ok (combine keys c) | Raised => Raised end
     | OpTd o =>
         match values_list_c09 o keys with
         | None => Raised
         | Some ov =>
             if fixed && Nat.ltb (List.length ov) (List.length o) then Raised else
-            match combine_vals Foreach vals ov with Ok c => Ok (combine keys c) | Raised => Raised end
+            match combine_vals f vals ov with Ok c => Ok (combine keys c) | Raised => Raised end
         end
     end.
 
@@ -210,3 +220,44 @@ Section Compare.
 End Compare.
 Arguments tree : clear implicits.
 Arguments ctree : clear implicits.
+
+(* ------------------------------------------------------------------ operator spellings (base.py:9279-9325, 292-436)
+   which named method an operator dunder forwards to, and in which order the two operands reach it.
+   [self_first = true]: torch computes  method(self_leaf, other);  false:  method(other, self_leaf). *)
+Inductive method := MAdd | MSub | MMul | MDiv | MPow | MAnd | MOr | MXor | MMulRecip | MNotImpl.
+Inductive dunder := DuAdd | DuRadd | DuIadd | DuSub | DuRsub | DuIsub | DuMul | DuRmul | DuImul
+                  | DuTruediv | DuRtruediv | DuItruediv | DuPow | DuRpow | DuIpow
+                  | DuAnd | DuRand | DuOr | DuRor | DuXor | DuRxor.
+
+Definition fixed_rsub : bool := false.
+
+(* (method called, in-place?, self is the left argument?) as the code does it *)
+Definition dunder_impl (fixed : bool) (d : dunder) : method * bool * bool :=
+  match d with
+  | DuAdd => (MAdd, false, true) | DuRadd => (MAdd, false, true) | DuIadd => (MAdd, true, true)
+  | DuSub => (MSub, false, true) | DuIsub => (MSub, true, true)
+  | DuRsub => (MSub, false, negb fixed)               (* __rsub__ returns self.sub(other): self - other *)
+  | DuMul => (MMul, false, true) | DuRmul => (MMul, false, true) | DuImul => (MMul, true, true)
+  | DuTruediv => (MDiv, false, true) | DuItruediv => (MDiv, true, true)
+  | DuRtruediv => (MMulRecip, false, false)            (* other * self.reciprocal() *)
+  | DuPow => (MPow, false, true) | DuIpow => (MPow, true, true)
+  | DuRpow => (MNotImpl, false, false)
+  | DuAnd => (MAnd, false, true) | DuRand => (MAnd, false, true)
+  | DuOr => (MOr, false, true) | DuRor => (MOr, false, true)
+  | DuXor => (MXor, false, true) | DuRxor => (MXor, false, true)
+  end.
+Definition impl_self_first (fixed : bool) (d : dunder) : bool := snd (dunder_impl fixed d).
+
+(* what Python's data model demands: reflected operators put `other` on the left *)
+Definition reflected (d : dunder) : bool :=
+  match d with DuRadd | DuRsub | DuRmul | DuRtruediv | DuRpow | DuRand | DuRor | DuRxor => true | _ => false end.
+Definition commutative (m : method) : bool :=
+  match m with MAdd | MMul | MAnd | MOr | MXor => true | _ => false end.
+(* the operand order is right when self is on the side the spelling says, or the method does not care *)
+Definition order_ok (fixed : bool) (d : dunder) : bool :=
+  let '(m, _, self_first) := dunder_impl fixed d in
+  match m with
+  | MNotImpl => true                                   (* raises: no value is returned *)
+  | MMulRecip => true                                  (* other * (1/self) = other / self *)
+  | _ => commutative m || Bool.eqb self_first (negb (reflected d))
+  end.
